@@ -184,6 +184,40 @@ impl Dialect for HideDialect {
     }
 }
 
+/// `run_program`; in a build with the `pre-eval` feature the run goes through
+/// `run_program_with_pre_eval` with an observe-only callback (C05), with `counters` alone through
+/// `run_program_with_counters`
+#[cfg(feature = "pre-eval")]
+pub fn run_any<D: Dialect>(a: &mut Allocator, d: &D, p: NodePtr, e: NodePtr, budget: Cost) -> Response {
+    use clvmr::run_program::run_program_with_pre_eval;
+    let seen = std::rc::Rc::new(std::cell::Cell::new(0u64));
+    let seen2 = seen.clone();
+    let cb: clvmr::run_program::PreEval = Box::new(move |a: &mut Allocator, prog: NodePtr, _env: NodePtr| {
+        // observe only: read the program node and the allocator counts
+        let _ = a.sexp(prog);
+        seen2.set(seen2.get() + a.atom_count() as u64);
+        let s3 = seen2.clone();
+        let post: Box<clvmr::run_program::PostEval> = Box::new(move |a: &mut Allocator, r: Option<NodePtr>| {
+            if let Some(n) = r {
+                let _ = a.sexp(n);
+            }
+            s3.set(s3.get() + 1);
+        });
+        Ok(Some(post))
+    });
+    run_program_with_pre_eval(a, d, p, e, budget, Some(cb))
+}
+
+#[cfg(all(feature = "counters", not(feature = "pre-eval")))]
+pub fn run_any<D: Dialect>(a: &mut Allocator, d: &D, p: NodePtr, e: NodePtr, budget: Cost) -> Response {
+    clvmr::run_program::run_program_with_counters(a, d, p, e, budget).1
+}
+
+#[cfg(not(any(feature = "counters", feature = "pre-eval")))]
+pub fn run_any<D: Dialect>(a: &mut Allocator, d: &D, p: NodePtr, e: NodePtr, budget: Cost) -> Response {
+    run_program(a, d, p, e, budget)
+}
+
 pub fn run_with(
     dialect: &str,
     flags: u32,
@@ -210,9 +244,9 @@ pub fn run_with(
     let before = counts(&a);
     let f = ClvmFlags::from_bits_truncate(flags);
     let r = match dialect {
-        "chia" => run_program(&mut a, &ChiaDialect::new(f), p, e, budget),
-        "hide" => run_program(&mut a, &HideDialect { inner: ChiaDialect::new(f) }, p, e, budget),
-        "runtime" => run_program(&mut a, &RuntimeDialect::new(standard_op_map(), vec![1], vec![2], f), p, e, budget),
+        "chia" => run_any(&mut a, &ChiaDialect::new(f), p, e, budget),
+        "hide" => run_any(&mut a, &HideDialect { inner: ChiaDialect::new(f) }, p, e, budget),
+        "runtime" => run_any(&mut a, &RuntimeDialect::new(standard_op_map(), vec![1], vec![2], f), p, e, budget),
         _ => return ("bad-request".into(), (0, 0, 0)),
     };
     let s = finish(&a, before, r);
